@@ -43,6 +43,7 @@ def run_job(job):
             res.ev()
             return runner.run([q], cwd=w, home=home, trace=trace)
 
+        pool = []
         for qi in range(job["queries"]):
             sel = ["path"] + rng.sample(["name", "size", "ext", "modified", "uid", "hardlinks", "-size", "-uid", "size * 2", "upper(name)", "-hardlinks"], rng.randint(0, 3))
             where = rng.choice(WHERES)
@@ -62,6 +63,7 @@ def run_job(job):
                 continue
             q = "%s from %s%s order by %s into list" % (", ".join(sel), frm, (" where " + where) if where else "", ob)
             res.cover("from_clauses", frm)
+            pool.append(q)
             r = run(q, trace=(qi % 3 == 0))
             ctx = {"query": q, "keys": exprs, "asc": asc, "result": r.brief()}
             if r.verdict != "ok":
@@ -103,6 +105,10 @@ def run_job(job):
             if distinct >= 2:
                 res.nt("%s|%s|%s" % (ob, where, len(table)))
             res.sample({"query": q, "first_rows": paths[:5], "rows": len(paths)}, cap=2)
+        # history: in interactive mode (`fselect -i`) the same queries run in one process, one after the other - each must
+        # print what it prints when run alone
+        if len(pool) >= 2 and job.get("session", True):
+            runner.session_matches(res, rng.sample(pool, min(4, len(pool))), w, home, "ordered queries")
     finally:
         runner.rm_scratch(sc)
     return res
